@@ -421,3 +421,32 @@ Example C09_tr_repeat_runs :
   | Ok (_, m1) => peek m1 G_ibuf 7 = map VInt [100; 119; 100; 119; 100; 119; 0] /\ peek1 m1 G_ibuf_cnt = Some 6 /\ peek1 m1 G_ibuf_pos = Some 0
   | _ => False end.
 Proof. vm_compute. repeat split; reflexivity. Qed.
+
+(* ---------------------------------------------------------------------------------------------- *)
+(* KNOWN FINDING KF-PUSH-CLIP (KNOWN_FINDINGS.txt; design.d/C09.md): "N. = retyping N times" does NOT hold for all counts.
+   C09_push_clip_refuted: there is a state of the key source (the one right after the keys `x` `4096` `.` were typed: ibuf_pos = ibuf_cnt = 1,
+   nothing pending), a recorded command shorter than the 4 KiB buffers (the one key `x`) and a count N = 4096 such that the keys delivered after
+   vc_repeat's pushes -- push_n_m, which C09_tr_vc_repeat proves is what the translated C text of vc_repeat() leaves for EVERY count -- are NOT
+   the recorded keys N times followed by what was pending (4095 keys arrive).  So the full statement of the property,
+       forall s cells n, src_ok s -> keys (push_n_m n cells s) = s_stk s ++ rpt n (map cell_key cells) ++ rest_keys s,
+   is false for the faithful model and for the C text; what is proved is the PARTIAL statement under the hypothesis "the copies fit":
+   C09_tr_push_n_keys above (n * length cells <= sizeof(ibuf) - ibuf_cnt), and on the abstract queue C09_dot_is_retyping / C09_exec_is_typing
+   (hypothesis `fits`) with their _vi instances.  Those names are kept (tools and notes refer to them); read them as `_partial` in this sense.
+   C09_tr_push_n_clipped says what happens instead: exactly sizeof(ibuf) - ibuf_cnt cells of the N-fold text arrive. *)
+Theorem C09_push_clip_refuted : exists (s : src) (cells : list val) (n : nat),
+  src_ok s /\ (length cells < Z.to_nat IBUFSZ)%nat /\
+  keys (push_n_m n cells s) <> s_stk s ++ TrRepeat3.rpt n (map cell_key cells) ++ rest_keys s.
+Proof. exact push_clip_refuted. Qed.
+Print Assumptions C09_push_clip_refuted.
+
+(* the same on the translated C text, run by vm_compute: ibuf_pos = ibuf_cnt = 1, rep_cmd = 2000 x `x`, rep_len = 2000, vi_arg1 = 3: the translated
+   vc_repeat() leaves ibuf_cnt = 4096 = sizeof(ibuf) -- 4095 cells pushed, not 6000 -- and returns without any sign of the loss *)
+Example C09_tr_push_clip_runs :
+  let kt := length cglobals in
+  let m0 := cglobals ++ [[]] in
+  let m := upd (upd (upd (upd (upd m0 G_rep_cmd (repeat (VInt 120) 2000 ++ skipn 2000 gb_rep_cmd)) G_rep_len [VInt 2000]) G_vi_arg1 [VInt 3]) G_ibuf_pos [VInt 1]) G_ibuf_cnt [VInt 1] in
+  match callx (kern kt) cprog 50 3 F_vc_repeat [] m with
+  | Ok (_, m1) => peek1 m1 G_ibuf_cnt = Some 4096 /\ peek1 m1 G_ibuf_pos = Some 1 /\ peek m1 G_ibuf 2 = [VInt 0; VInt 120] /\
+                  skipn 4090 (peek m1 G_ibuf 4096) = repeat (VInt 120) 6
+  | _ => False end.
+Proof. vm_compute. repeat split; reflexivity. Qed.
